@@ -239,6 +239,9 @@ def _isinstance1(eng, st, v, ty):
     if isinstance(v, VExc):
         return exc_is_subclass(v.cls, n)
     if isinstance(v, VOpq):
+        h = eng.world.get("__isinstance__:" + v.tag)
+        if h is not None:
+            return h(eng, st, v, n)   # bool or z3 Bool: the class of this opaque value is symbolic
         # opaque value with declared kind tag "kind:<Class>"; other classes -> False
         decl = eng.world.get("__opaque_classes__", {}).get(v.tag)
         if decl is not None:
